@@ -122,10 +122,6 @@ func c14Trie(r *kit.Rand, def merkletrie.MemoryConfig) merkletrie.MemoryConfig {
 	}
 }
 
-func c14Stage(i trackerdb.CatchpointFirstStageInfo) string {
-	return fmt.Sprintf("totals=%+v trie=%s spver=%s onlineaccts=%s onlineroundparams=%s", i.Totals, i.TrieBalancesHash, i.StateProofVerificationHash, i.OnlineAccountsHash, i.OnlineRoundParamsHash)
-}
-
 func TestVerifC14(t *testing.T) {
 	c := kit.Start(t, "C14", "labels")
 	defer c.Finish()
@@ -280,7 +276,7 @@ func TestVerifC14(t *testing.T) {
 					if lbl, ok := o.labels[rnd]; ok {
 						d := map[string]any{"ledger": o.Name, "config": o.Desc, "label": lbl, "source": o.src[rnd], "commit_boundaries": fmt.Sprint(o.commits)}
 						if info, ok := o.stages[rnd-lb]; ok {
-							d["first_stage"] = c14Stage(info)
+							d["first_stage"] = cpStageStr(info)
 						}
 						det = append(det, d)
 					}
